@@ -44,6 +44,16 @@ CLAIMED = {
         "note": "Trusted: Lean kernel; harness+driver. Build totality (no panic, mark inside the expression) is modelled with explicit panic/diverge outcomes and checked by correspondence; the Lean proof that these outcomes are unreachable (lexer byte-accounting invariant, parser fuel) is not yet done. path_eval: construction totality only.",
         "technique": "Lean 4 proof (run outcome lemmas) + byte-level fuzz and exhaustive fault-position differential correspondence",
     },
+    "C13": {
+        "text": "Lean 4 theorems over a model of createRangeBdry/validateRangeBoundaries/getDefault/validateRestrictions and the Validate methods: every successful narrowing step yields a subset of its base for any number of parts and any base (fits_sound / stepPart_sound / restrict_sound, generic in the boundary order, contiguity only for integers), lifted over chains of any depth (C13_chain); the default in force is the nearest one and the final type accepts it; restriction kinds per base; regenerated obligations that inttab/uinttab/fdtab/validRestrictions are the tables in /repo. Tied to /repo by compiling generated typedef chains with the real compiler and probing Type.Validate / Type.Default, compared with the model and with an exact value-space specification.",
+        "note": "Trusted: Lean kernel; harness+driver; SF64 = float64. Completeness (every subset restriction is accepted) is checked by correspondence only. Patterns are counted, not interpreted. Open known finding: decimal64 boundaries compared as binary64.",
+        "technique": "Lean 4 proof (narrowing soundness by induction over parts and chain levels) + regenerated table obligations + differential correspondence on compiled typedef chains",
+    },
+    "C16": {
+        "text": "Lean 4 iff-theorems characterising the model of integer/uinteger/boolean/empty/enumeration/string Validate as exactly the YANG lexical value space (sign, digits, width bounds, multi-part ranges, length in characters), with kernel-checked witnesses for the decimal64 boundary behaviour; model tied to /repo by probing Type.Validate of compiled types with every bound +/- one unit, 18-19 digit values and malformed lexemes, compared with the model (exact outcome) and the exact specification.",
+        "note": "Trusted: Lean kernel; harness+driver; SF64 = float64. Not yet modelled: patterns, union, identityref, error path/app-tag. Open known finding: decimal64 ranges compared as binary64.",
+        "technique": "Lean 4 proof (value-space characterisation per base type) + differential correspondence on boundary probes",
+    },
 }
 NOT_APPLICABLE = {}
 SOURCE_COMMITS = []  # no hook commits: all observation points are public API
